@@ -4,6 +4,7 @@
   auth events: R7) and `authAndApply` = `iterAuth` (a left fold, definitional).  Core only.
 -/
 import VProofs.StateResSpecMainline
+import VProofs.AuthRulesBase
 namespace V.StateResSpec
 open V Json GoJson Auth List
 open V.StateRes
@@ -205,12 +206,20 @@ theorem modelAuthStep_rel {s : State} {f : SMap} (h : StateRel s f) (hk : KeysNo
     StateRel (modelAuthStep m rejected s e) (authStep m rejected f e) ∧ KeysNodup (modelAuthStep m rejected s e) := by
   unfold modelAuthStep authStep
   rw [providerFor_eq h]
-  generalize allowedFreshNoValid e (Provider.ofEvents (providerEvents m rejected f e)) false = v
+  -- the model calls the reusable checker, the definition the standalone `Allowed`: they accept alike
+  have hiff := V.AuthRules.allowedFresh_ok_iff_noValid e (Provider.ofEvents (providerEvents m rejected f e)) false
+  generalize allowedFreshNoValid e (Provider.ofEvents (providerEvents m rejected f e)) false = v at hiff
+  generalize allowedFresh e (Provider.ofEvents (providerEvents m rejected f e)) false = w at hiff
   cases v with
   | ok =>
+    have hw : w = .ok := hiff.mpr rfl
+    subst hw
     have := applyStep_rel h hk e
     simpa [applyEvents_eq] using this
-  | _ => exact ⟨h, hk⟩
+  | _ =>
+    cases w with
+    | ok => exact absurd (hiff.mp rfl) (by intro hc; cases hc)
+    | _ => exact ⟨h, hk⟩
 
 theorem authAndApply_rel (m : List Event) (rejected : List ID) : ∀ (evs : List Event) {s : State} {f : SMap},
     StateRel s f → KeysNodup s →
